@@ -250,6 +250,7 @@ func init() {
 		if isIface(r.t) && !isIface(x.t) {
 			v = iface{x.t, v}
 		}
+		checkFrozen(r.addr)
 		store(r.t, r.addr, v)
 		return nil
 	})
@@ -348,4 +349,220 @@ func initReflect2(i *interpreter) {
 	for _, m := range []string{"Implements", "AssignableTo", "Name", "FieldByName"} {
 		i.rtypeMethods[m] = newMethod(i.reflectPackage, rtypeType, m)
 	}
+}
+
+func init() {
+	E := func(name string, f externalFn) { externals[name] = f }
+	E("(reflect.Value).Bool", func(fr *frame, args []value) value {
+		r := mustRV(args[0], "Bool")
+		switch x := r.get().(type) {
+		case bool, symBool:
+			return x
+		}
+		tpanic("reflect: call of reflect.Value.Bool on %v Value", r.t)
+		return nil
+	})
+	E("(reflect.Value).Uint", func(fr *frame, args []value) value {
+		r := mustRV(args[0], "Uint")
+		switch x := r.get().(type) {
+		case uint:
+			return uint64(x)
+		case uint8:
+			return uint64(x)
+		case uint16:
+			return uint64(x)
+		case uint32:
+			return uint64(x)
+		case uint64:
+			return x
+		case uintptr:
+			return uint64(x)
+		case symInt:
+			return resize(x, types.Uint64)
+		}
+		tpanic("reflect: call of reflect.Value.Uint on %v Value", r.t)
+		return nil
+	})
+	E("(reflect.Value).Float", func(fr *frame, args []value) value {
+		r := mustRV(args[0], "Float")
+		switch x := r.get().(type) {
+		case float32:
+			return float64(x)
+		case float64:
+			return x
+		}
+		tpanic("reflect: call of reflect.Value.Float on %v Value", r.t)
+		return nil
+	})
+	E("(reflect.Value).Int", func(fr *frame, args []value) value {
+		r := mustRV(args[0], "Int")
+		switch x := r.get().(type) {
+		case int:
+			return int64(x)
+		case int8:
+			return int64(x)
+		case int16:
+			return int64(x)
+		case int32:
+			return int64(x)
+		case int64:
+			return x
+		case symInt:
+			return resize(x, types.Int64)
+		}
+		tpanic("reflect: call of reflect.Value.Int on %v Value", r.t)
+		return nil
+	})
+	E("(reflect.Value).String", func(fr *frame, args []value) value {
+		r, ok := unpackRV(args[0])
+		if !ok {
+			return "<invalid Value>"
+		}
+		switch s := r.get().(type) {
+		case string, sstring:
+			return s
+		}
+		return "<" + r.t.String() + " Value>"
+	})
+	E("(reflect.Value).Len", func(fr *frame, args []value) value {
+		r := mustRV(args[0], "Len")
+		switch v := r.get().(type) {
+		case string:
+			return len(v)
+		case sstring:
+			return len(v.b)
+		case array:
+			return len(v)
+		case []value:
+			return len(v)
+		case *hashmap:
+			return v.len()
+		}
+		tpanic("reflect: call of reflect.Value.Len on %v Value", r.t)
+		return nil
+	})
+	E("(reflect.Value).Cap", func(fr *frame, args []value) value {
+		r := mustRV(args[0], "Cap")
+		switch v := r.get().(type) {
+		case array:
+			return len(v)
+		case []value:
+			return cap(v)
+		}
+		tpanic("reflect: call of reflect.Value.Cap on %v Value", r.t)
+		return nil
+	})
+	E("(reflect.Value).CanSet", func(fr *frame, args []value) value {
+		r, ok := unpackRV(args[0])
+		return ok && r.addr != nil
+	})
+	E("(reflect.Value).CanInterface", func(fr *frame, args []value) value {
+		_, ok := unpackRV(args[0])
+		return ok
+	})
+	E("(reflect.Value).IsZero", func(fr *frame, args []value) value {
+		r := mustRV(args[0], "IsZero")
+		v := r.get()
+		if isSym(v) {
+			panic(unsupported("reflect.Value.IsZero on a symbolic value"))
+		}
+		defer func() {
+			if p := recover(); p != nil {
+				panic(unsupported("reflect.Value.IsZero on this kind"))
+			}
+		}()
+		switch x := v.(type) {
+		case []value:
+			return x == nil
+		case *hashmap:
+			return x == nil
+		case *value:
+			return x == nil
+		case iface:
+			return x.t == nil
+		}
+		return equals(r.t, v, zero(r.t))
+	})
+	E("(reflect.Value).Slice", func(fr *frame, args []value) value {
+		r := mustRV(args[0], "Slice")
+		i, j := int(asInt64(args[1])), int(asInt64(args[2]))
+		switch v := r.get().(type) {
+		case []value:
+			if i < 0 || j < i || j > cap(v) {
+				tpanic("reflect.Value.Slice: slice index out of bounds")
+			}
+			return packRV(r.t, v[i:j], nil)
+		case string:
+			if i < 0 || j < i || j > len(v) {
+				tpanic("reflect.Value.Slice: string slice index out of bounds")
+			}
+			return packRV(r.t, v[i:j], nil)
+		}
+		tpanic("reflect: call of reflect.Value.Slice on %v Value", r.t)
+		return nil
+	})
+	E("(reflect.Value).SetString", func(fr *frame, args []value) value {
+		r := mustRV(args[0], "SetString")
+		if r.addr == nil {
+			tpanic("reflect: reflect.Value.SetString using unaddressable value")
+		}
+		checkFrozen(r.addr)
+		*r.addr = args[1]
+		return nil
+	})
+	E("(reflect.Value).SetBool", func(fr *frame, args []value) value {
+		r := mustRV(args[0], "SetBool")
+		if r.addr == nil {
+			tpanic("reflect: reflect.Value.SetBool using unaddressable value")
+		}
+		checkFrozen(r.addr)
+		*r.addr = args[1]
+		return nil
+	})
+	E("(reflect.Value).Convert", func(fr *frame, args []value) value {
+		r := mustRV(args[0], "Convert")
+		t := rtypeOf(args[1])
+		v := r.get()
+		switch {
+		case isIface(t) && !isIface(r.t):
+			if !types.AssignableTo(r.t, t) {
+				tpanic("reflect.Value.Convert: value of type %v cannot be converted to type %v", r.t, t)
+			}
+			v = iface{r.t, v}
+		case isIface(t) && isIface(r.t):
+			it := v.(iface)
+			if it.t != nil && !types.AssignableTo(it.t, t) {
+				tpanic("reflect.Value.Convert: value of type %v cannot be converted to type %v", it.t, t)
+			}
+		case !types.ConvertibleTo(r.t, t):
+			tpanic("reflect.Value.Convert: value of type %v cannot be converted to type %v", r.t, t)
+		case !types.Identical(r.t.Underlying(), t.Underlying()):
+			panic(unsupported("reflect.Value.Convert between different underlying types"))
+		}
+		return packRV(t, v, nil)
+	})
+	E("(reflect.Value).Pointer", func(fr *frame, args []value) value {
+		panic(unsupported("reflect.Value.Pointer"))
+	})
+	E("(reflect.Value).UnsafePointer", func(fr *frame, args []value) value {
+		panic(unsupported("reflect.Value.UnsafePointer"))
+	})
+	E("reflect.Append", func(fr *frame, args []value) value {
+		r := mustRV(args[0], "Append")
+		s, _ := r.get().([]value)
+		out := append([]value{}, s...)
+		et := r.t.Underlying().(*types.Slice).Elem()
+		for _, a := range args[1].([]value) {
+			x := mustRV(a, "Append")
+			if !types.AssignableTo(x.t, et) {
+				tpanic("reflect.Append: value of type %v is not assignable to type %v", x.t, et)
+			}
+			v := x.get()
+			if isIface(et) && !isIface(x.t) {
+				v = iface{x.t, v}
+			}
+			out = append(out, v)
+		}
+		return packRV(r.t, out, nil)
+	})
 }
